@@ -59,7 +59,7 @@ class Sys:
         ins(r'^<std::iter::FilterMap<.*> as Iterator>::try_for_each::<|^<std::slice::Iter<.*> as Iterator>::try_for_each::<', self.m_try_for_each)
         ins(r'^<impl Into<(sender::)?Sender<.*>> as Into<.*>>::into$', self.m_into_sender)
         ins(r'^std::mem::forget::<', lambda e, st, fr, t, a: UNIT)
-        ins(r'^TypeId::of::<(.*)>$', lambda e, st, fr, t, a: VConst('TypeId:' + re.match(r'^TypeId::of::<(.*)>$', t.func, re.S).group(1)))
+        ins(r'^TypeId::of::<(.*)>$', lambda e, st, fr, t, a: VConst('TypeId:' + self.subst_type(fr, re.match(r'^TypeId::of::<(.*)>$', t.func, re.S).group(1))))
         ins(r'^<LazyLock<Atomic(U64|<u64>)> as Deref>::deref$', lambda e, st, fr, t, a: VConst('CONTEXT_ID_COUNTER'))
         ins(r'^Atomic(U64)?(::<u64>)?::fetch_add$', self.m_ctx_id)
         ins(r'^<LazyLock<async_lock::RwLock<HashMap<.*>>> as Deref>::deref$', self.m_registry)
@@ -102,6 +102,15 @@ class Sys:
         self.ctx_counter = 0
 
     # ------------------------------------------------------------------ generic helpers
+    @staticmethod
+    def subst_type(fr, ty):
+        """a type written in terms of the generic parameters of the current function, under the bindings known for
+        this frame (`M` -> `()` inside `register_child::<()>`)"""
+        tsub = getattr(fr, 'tsub', None)
+        if not tsub:
+            return ty
+        return re.sub(r'\b([A-Za-z_]\w*)\b', lambda mm: tsub.get(mm.group(1), mm.group(1)), ty)
+
     def resolve_future_impl(self, st, fut):
         """hannibal types that implement Future themselves (Addr<A>)"""
         if isinstance(fut, VAgg) and fut.name and re.fullmatch(r'[A-Za-z_:]+', fut.name) and not fut.name.startswith('model'):
